@@ -33,10 +33,13 @@ def run(F, rep, tier):
     rep.ob("payloads.reader", "(size Rem 3) Ne 1" in t2 and "buf.read_u16()?" in t2 and "sizes[(code as usize)]" in t2, "io::slippi::de::parse_payloads", "payloads", "the reader must parse the same triple layout")
     # 4: dropped content stays dropped consistently — the unknown path stores nothing in the game (C08 clause 2)
     C08.unknown_path_rule(F, rep)
+    # junk after Game End inside the raw element is consumed but never stored: the only game fields read() itself writes
+    # are the doubled-end quirk and the hash
     rd = F.body("io::slippi::de::read")
-    t3 = tir.pretty(rd["tir"]["value"])
-    rep.ob("junk.not-stored", "Extra content after Game End" in "".join(str(x.get("v")) for x in tir.walk(rd["tir"]["value"]) if x.get("k") == "Array") or "let buf = std::vec::from_elem(0, len); r.read_exact(&mut buf)?" in t3,
-           "io::slippi::de::read", "junk", "bytes after Game End inside the raw element must be read and discarded (only the doubled-end quirk is remembered)")
+    stored = sorted(set(p for p, n in C08.mutations(rd["tir"]["value"]) if p and p.startswith("state.game.") and n.get("k") in ("Assign", "AssignOp", "MethodCall")))
+    rep.ob("junk.not-stored", all(p.startswith("state.game.quirks") or p == "state.game.hash" for p in stored), "io::slippi::de::read", "junk",
+           "read() stores data into the game outside the event handlers: %s (trailing bytes after Game End must be discarded; only the doubled-end quirk and the hash are recorded)" % stored,
+           sample={"game_fields_written_by_read": stored})
     # positive control: the raw_size polynomial must change when a term is dropped
     full = emission.RawSize(F).poly()
     dropped = full - emission.Poly.atom("END") * emission.Poly.atom("DOUBLE") * (emission.Poly.const(1) + emission.Poly.atom("sz[GameEnd]"))
